@@ -78,7 +78,7 @@ impl UndoOperation for UndoSetChar {
     }
 
     fn undo(&mut self, edit_state: &mut EditState) -> EngineResult<()> {
-        edit_state.buffer.layers[self.layer].set_char(self.pos, self.old);
+        edit_state.buffer.layers[self.layer].restore_char(self.pos, self.old);
         Ok(())
     }
 
